@@ -57,7 +57,7 @@ def gen_cases(tier, seed, shard, nshards):
             c["reject_ok"] = True
             yield c
     # G3
-    per = 1500 if thorough else 90
+    per = 6000 if thorough else 90
     for gi, (src, canon) in enumerate(R.all_mnemonics()):
         if gi % nshards != shard:
             continue
